@@ -427,10 +427,46 @@ def classify_rejections(ctx, pid, module, harness_bin, harness_cmd, bad, scns, c
         run_harness(ctx, harness_bin, [harness_cmd, "-cases", cf_, "-out", tf, "-rand", 0] + list(extra_args))
     b2, scn2, _ = validate_trace(ctx, module, tf, consts=consts)
     v.unreproduced = len(todo) - len(b2)
-    if v.unreproduced:
-        log("[classify] %d rejections did not reproduce on re-run (not a verdict)" % v.unreproduced)
     remaining = set(b2)
     by_id2 = {sid: lines for sid, lines in scn2}
+    hist_replays = {}
+    if v.unreproduced:
+        # Some rejections vanish when the scenario runs on its own: the behaviour may depend on what the process did BEFORE
+        # (state kept between evaluations). Re-run the whole sequence of cases in its original order; what is rejected
+        # again is reproducible - with its history - and is reported with a replay file that holds that history.
+        gone = [sid for sid in todo if sid not in remaining]
+        log("[classify] %d rejections did not reproduce in isolation; re-running the whole sequence" % len(gone))
+        order = [sid for sid, _ in scns]
+        cf_all = ctx.path("replay-all-cases.ndjson")
+        with open(cf_all, "w") as f:
+            for sid, lines in scns:
+                case = json.loads(lines[0])
+                case.pop("ev", None)
+                f.write(json.dumps(case) + "\n")
+        tf_all = ctx.path("replay-all-trace.ndjson")
+        if reexec:
+            reexec(cf_all, tf_all)
+        else:
+            run_harness(ctx, harness_bin, [harness_cmd, "-cases", cf_all, "-out", tf_all, "-rand", 0] + list(extra_args))
+        b_all, scn_all, _ = validate_trace(ctx, module, tf_all, consts=consts)
+        again = [sid for sid in gone if sid in set(b_all)]
+        v.unreproduced = len(gone) - len(again)
+        if again:
+            by_all = {sid: lines for sid, lines in scn_all}
+            first = min(order.index(sid) for sid in again)
+            # the shortest history that is certainly sufficient: every case up to the first scenario rejected again
+            d = os.path.join(VERIF, "replays", pid)
+            os.makedirs(d, exist_ok=True)
+            blob = "".join(open(cf_all).readlines()[:first + 1])
+            hpath = os.path.join(d, "history-" + hashlib.sha1(blob.encode()).hexdigest()[:12] + ".ndjson")
+            with open(hpath, "w") as f:
+                f.write(blob)
+            for sid in again:
+                by_id2[sid] = by_all[sid]
+                remaining.add(sid)
+                hist_replays[sid] = hpath
+        if v.unreproduced:
+            log("[classify] %d rejections did not reproduce on re-run (not a verdict)" % v.unreproduced)
     for kf in known:
         if not remaining:
             break
@@ -445,6 +481,9 @@ def classify_rejections(ctx, pid, module, harness_bin, harness_cmd, bad, scns, c
             v.known[kf["id"]] = len(explained)
             remaining -= explained
     for sid in sorted(remaining)[:max_report]:
+        if sid in hist_replays:
+            v.violations.append((hist_replays[sid], "(depends on the evaluations before it: the replay file holds the whole sequence; last case is scenario %s)" % sid))
+            continue
         path = save_replay(pid, by_id2[sid])
         v.violations.append((path, json.loads(by_id2[sid][0]).get("txt", "")))
     v.total_violating = len(remaining)
